@@ -319,7 +319,8 @@ class YP(object):
     def findall(self, template, goal, bag):
         '''findall/3 returns values according to template into bag, that satisfy goal.'''
         q = self.call(goal)
-        results = self.makelist([ get_value(template) for r in q ])
+        # each solution contributes its own copy of the template (with its own variables)
+        results = self.makelist([ copy_terms([template])[0] for r in q ])
         for y in unify(bag, results):
             yield False
 
